@@ -187,7 +187,11 @@ func (i *interpreter) runtimeError(msg string) *targetPanic {
 	if i.curFrame != nil {
 		site = i.curFrame.site()
 	}
-	return &targetPanic{v: iface{t: i.runtimeErrorString, v: msg}, site: site, rt: true}
+	var st []string
+	if i.curFrame != nil {
+		st = i.curFrame.stack(24)
+	}
+	return &targetPanic{v: iface{t: i.runtimeErrorString, v: msg}, site: site, rt: true, stack: st}
 }
 
 func (i *interpreter) nilDeref() *targetPanic {
@@ -288,7 +292,7 @@ func (i *interpreter) visitInstr(fr *frame, instr ssa.Instruction) continuation 
 		fr.runDefers()
 
 	case *ssa.Panic:
-		panic(&targetPanic{v: fr.get(instr.X), site: fr.site()})
+		panic(&targetPanic{v: fr.get(instr.X), site: fr.site(), stack: fr.stack(24)})
 
 	case *ssa.Send:
 		i.chanSend(fr.get(instr.Chan).(*vchan), fr.get(instr.X))
@@ -583,7 +587,9 @@ func (i *interpreter) callSSA(caller *frame, callpos token.Pos, fn *ssa.Function
 			}
 			r := intr(fr, args)
 			i.curFrame = saved
-			return r
+			if _, ft := r.(fallThrough); !ft {
+				return r
+			}
 		}
 		if fn.Blocks == nil {
 			panic(i.unsupported("no code for function: " + fn.String()))
@@ -868,7 +874,7 @@ func (i *interpreter) callBuiltin(caller *frame, callpos token.Pos, fn *ssa.Buil
 		}
 
 	case "panic":
-		panic(&targetPanic{v: args[0], site: caller.site()})
+		panic(&targetPanic{v: args[0], site: caller.site(), stack: caller.stack(24)})
 
 	case "recover":
 		return i.doRecover(caller)
